@@ -2,12 +2,12 @@
    check.  Only ExtrOcamlBasic is used: bool, option, unit, list, prod, sumbool map to OCaml's own;
    nat, N, positive, ascii and string stay as the extracted inductive datatypes. *)
 From Coq Require Import Extraction ExtrOcamlBasic.
-From RtcpV Require Import Model.Run Model.Hist Spec.Views Spec.Ref.
+From RtcpV Require Import Model.Run Model.Hist Spec.Views Spec.Ref Spec.Final.
 
 Extraction Language OCaml.
 Set Extraction KeepSingleton.
 
 Extraction "model.ml"
   run_parse run_build run_build_chunk run_build_item m_calc chunk_calc item_calc
-  spec_build2 spec_parse2 run_hist chunk_of_hist
+  spec_build2 spec_parse2 run_hist chunk_of_hist final_config
   N.of_nat N.to_nat N.add N.mul.
